@@ -136,12 +136,20 @@ func (c *Ctx) compressCountByPaths(fn *ssa.Function) (bool, string) {
 	if recT == nil {
 		return false, "the value inserted is not a pointer to a record"
 	}
+	fidx := -1
+	plainInt := false
+	if b, isB := recT.Elem().Underlying().(*types.Basic); isB {
+		// the record is the counter itself: *int
+		if b.Kind() != types.Int {
+			return false, fmt.Sprintf("the counter has type %s, not int", b.Name())
+		}
+		plainInt = true
+	}
 	st, ok := recT.Elem().Underlying().(*types.Struct)
-	if !ok {
+	if !ok && !plainInt {
 		return false, "the value inserted is not a pointer to a record"
 	}
-	fidx := -1
-	for i := 0; i < st.NumFields(); i++ {
+	for i := 0; !plainInt && i < st.NumFields(); i++ {
 		if b, ok := st.Field(i).Type().Underlying().(*types.Basic); ok && b.Info()&types.IsInteger != 0 {
 			if fidx >= 0 {
 				return false, "the record has several integer fields"
@@ -152,10 +160,16 @@ func (c *Ctx) compressCountByPaths(fn *ssa.Function) (bool, string) {
 			}
 		}
 	}
-	if fidx < 0 {
+	if fidx < 0 && !plainInt {
 		return false, "the record has no integer field"
 	}
 	isRecField := func(v ssa.Value) (ssa.Value, bool) {
+		if plainInt {
+			if types.Identical(v.Type().Underlying(), recT) {
+				return v, true
+			}
+			return nil, false
+		}
 		fa, ok := v.(*ssa.FieldAddr)
 		if !ok || fa.Field != fidx || !types.Identical(fa.X.Type().Underlying(), recT) {
 			return nil, false
